@@ -483,6 +483,11 @@ class Engine:
         return env
     def feasible(s, g):
         """is the path guard satisfiable under the constraints collected so far?  (incremental finite-domain SAT)"""
+        from vals import _aid
+        if not hasattr(s, 'feas_cache'): s.feas_cache = {}
+        k = _aid(g)
+        if k in s.feas_cache: return s.feas_cache[k]
+        if s.stats['loopchk'] > s.opts.get('feas_max', 600): return True      # budget exhausted: treat as feasible (sound: keeps the obligation)
         s.stats['loopchk'] += 1
         if s.feas is None: s.feas = z3.SolverFor('QF_FD'); s.feas.set('timeout', 10000)
         S = s.feas
@@ -492,7 +497,9 @@ class Engine:
         s.feas_n[0] = len(s.assumes)
         for a in name.defs[s.feas_n[1]:]: S.add(a)
         s.feas_n[1] = len(name.defs)
-        return S.check(g) != z3.unsat
+        r = S.check(g) != z3.unsat
+        s.feas_cache[k] = r
+        return r
     def goto(s, f, ctrl, frm_bi, label, g):
         bi = f.bidx[label]; b = f.blocks[bi]; frm = f.blocks[frm_bi].label
         vals = []; k = 0
